@@ -313,6 +313,7 @@ type vfSpec struct {
 	Loop          time.Duration // Loop job to self started at launch
 	OnceFail      time.Duration // Once job to self at launch whose delivery fails (first incarnation only)
 	BecomeAt      int           // after n user messages install a 'became' behaviour; 0 = never
+	TrackStash    bool          // log StashCount after every user message
 }
 
 type vfActor struct {
@@ -458,6 +459,9 @@ func (a *vfActor) handle(ctx vivid.ActorContext, beh string) {
 			ctx.Become(a.became)
 		}
 		a.exec(ctx, m)
+		if a.spec.TrackStash {
+			w.add(vfEv{Kind: "api", Path: path, Msg: "stashcount", ID: ctx.StashCount()})
+		}
 	case *vfSched:
 		if m.Ref == "oncefail" {
 			a.fail(ctx, "scheduled")
